@@ -343,6 +343,10 @@ func Vary(req *http.Request, k int) *http.Request {
 	if k%5 == 0 {
 		req.Header.Set("Connection", "close")
 	}
+	if k%7 == 3 { // asks for a protocol upgrade (websocket): still a request like any other to a limiter or a breaker
+		req.Header.Set("Connection", "keep-alive, Upgrade")
+		req.Header.Set("Upgrade", "websocket")
+	}
 	Count("requests_varied_method_proto_headers", 1)
 	return req
 }
